@@ -645,6 +645,11 @@ pub fn run(ctx: &Ctx, id: &str) -> i32 {
     let lim = limits(ctx);
     let (mut stats, mut vio) = run_spaces(ctx, spaces, &lim);
     if id == "C12" {
+        // trailing-slash joins are classified as invalid-path (and nothing else is)
+        let (n, v) = super::pathprops::invalid_path_sweep(if ctx.tier == Tier::Thorough { 7 } else { 6 });
+        println!("  [join: invalid-path classification of every string up to the bound] evaluations={} violations={}", n, v.len());
+        stats.push(Stats { label: "join strings: invalid-path classification".into(), states: 1, transitions: n, fixpoint: true, ..Default::default() });
+        vio.extend(v);
         let (st, v) = c12_extras(ctx);
         println!(
             "  [{}] evaluations={} violations={}",
